@@ -6,11 +6,15 @@
   compose: `A/B/n`), everything else about the token stream is unchanged; prefixed names of different
   aliases, and of a module and its importer, never coincide when user identifiers contain no `/`;
   `_ডাইরেক্টরি` is replaced, before renaming, by the directory of the file it is written in; the
-  module's tokens are spliced once, directly after the import statement.  The behavioural clause
-  (moving definitions into a module does not change behaviour) is decided by the C14 check against
-  the renamed-apart inlined program.
+  module's tokens are spliced once, directly after the import statement.  **Behavioural clause** (last
+  part of the file): the qualification `n ↦ A/n` is an injective renaming of user identifiers that fixes
+  the built-in names and produces none, and the interpreter commutes with every such renaming
+  (`runLoop_rename`, `Lemmas/Rename1…7.lean`): `qualified_code_same_run`, `qualified_program_same_outcome`,
+  `consistent_renaming_same_run` — user identifiers are labels.  That parsing the spliced tokens yields
+  the qualified statements in place is decided by the C14 check against the renamed-apart inlined program.
 -/
 import Pakhi.Model.Parser
+import Pakhi.Lemmas.Rename7
 
 namespace Pakhi
 namespace C14
@@ -108,6 +112,83 @@ theorem splice_once (ctx : PCtx) (s : PS) (name path : Str) (off : Nat) (importe
   simp [namedModuleImport, h1, h2, h3, h4, h5, h6]
 
 example : isBuiltin W.fnListPush = true ∧ isBuiltin W.kwPrint = false := by decide
+
+/-- the renaming that `prepend_with_import_name` applies to the identifiers of a module imported as `A` -/
+def qual (A : Str) (n : Str) : Str := if !isBuiltin n && n != platformConst then A ++ ('/' :: n) else n
+
+theorem platform_slash_free : '/' ∉ platformConst := by decide
+
+theorem qual_fixes_builtins (A n : Str) (h : isBuiltin n = true) : qual A n = n := by simp [qual, h]
+theorem qual_fixes_platform (A : Str) : qual A platformConst = platformConst := by simp [qual]
+
+theorem isBuiltin_slash (x : Str) (h : '/' ∈ x) : isBuiltin x = false := by
+  cases hb : isBuiltin x with
+  | false => rfl
+  | true =>
+    have hm : x ∈ builtinNames := by simpa [isBuiltin] using hb
+    exact absurd h (builtins_slash_free x hm)
+
+theorem qual_keeps_builtin_status (A n : Str) : isBuiltin (qual A n) = isBuiltin n := by
+  unfold qual
+  split
+  · rename_i h
+    have hn : isBuiltin n = false := by
+      cases hb : isBuiltin n <;> simp_all
+    rw [hn]; exact isBuiltin_slash _ (by simp)
+  · rfl
+
+theorem qual_injective (A : Str) (hA : '/' ∉ A) (a b : Str) (h : qual A a = qual A b) : a = b := by
+  have fixed_no_slash : ∀ n, ¬ ((!isBuiltin n && n != platformConst) = true) → '/' ∉ n := by
+    intro n hn
+    have : isBuiltin n = true ∨ n = platformConst := by
+      cases hb : isBuiltin n
+      · right; simpa [hb] using hn
+      · left; rfl
+    rcases this with hb | rfl
+    · exact builtins_slash_free n (by simpa [isBuiltin] using hb)
+    · exact platform_slash_free
+  unfold qual at h
+  split at h <;> split at h
+  · exact prefix_cancel A a b h
+  · rename_i h1 h2; exact absurd (h ▸ (by simp : '/' ∈ A ++ '/' :: a)) (fixed_no_slash b h2)
+  · rename_i h1 h2; exact absurd (h ▸ (by simp : '/' ∈ A ++ '/' :: b)) (fixed_no_slash a h1)
+  · exact h
+
+/-- `prepend_with_import_name` IS this renaming applied to every identifier token -/
+theorem prependName_is_renaming (toks : List Token) (A : Str) :
+    prependName toks A = toks.map (fun t => if t.kind == .ident then rnTok (qual A) t else t) := by
+  unfold prependName
+  apply List.map_congr_left
+  intro t _
+  by_cases hk : (t.kind == TK.ident) = true
+  · simp only [hk, Bool.true_and, if_true, rnTok, qual]
+    split <;> rfl
+  · simp [hk]
+
+/-- **qualifying a module's identifiers does not change what its code does**: the module's statements with every user identifier `n`
+    turned into `A/n` (built-ins and `_প্ল্যাটফর্ম` left alone) run exactly like the unqualified statements, variable for variable —
+    same output, heap, world, collections, the very same error; only the names under which the scopes hold the values are qualified.
+    This is why moving definitions into a module and qualifying their uses preserves behaviour, and why two modules (or importer and
+    module) with equal names cannot capture each other: the qualified names are the images of an injective map. -/
+theorem qualified_code_same_run (A : Str) (hA : '/' ∉ A) (prog : List Stmt) (g : GcMode) (f k : Nat) (cur : List Stmt) (s : St) :
+    runLoop (rnL (qual A) prog) g f k (rnL (qual A) cur) (rnSt (qual A) s) = (runLoop prog g f k cur s).rn (rnSt (qual A)) :=
+  runLoop_rename (qual A) prog (qual_injective A hA) (qual_fixes_builtins A) (qual_keeps_builtin_status A) g f k cur s
+
+/-- … from the initial state: a whole program and its qualified copy print the same and end the same way -/
+theorem qualified_program_same_outcome (A : Str) (hA : '/' ∉ A) (prog : List Stmt) (g : GcMode) (f : Nat) (w : World) :
+    runLoop (rnL (qual A) prog) g f 0 (rnL (qual A) prog) (St.init w) = (runLoop prog g f 0 prog (St.init w)).rn (rnSt (qual A)) := by
+  have h := qualified_code_same_run A hA prog g f 0 prog (St.init w)
+  have hi : rnSt (qual A) (St.init w) = St.init w := by
+    simp [rnSt, St.init, rnScope, qual_fixes_platform, rnHeap, Heap.empty, rnV]
+  rw [hi] at h; exact h
+
+/-- the general statement: ANY consistent renaming of user identifiers (injective, fixing the built-in names, producing none) -/
+theorem consistent_renaming_same_run (ρ : Str → Str) (prog : List Stmt) (hinj : ∀ a b, ρ a = ρ b → a = b)
+    (hbi : ∀ n, isBuiltin n = true → ρ n = n) (hnb : ∀ n, isBuiltin (ρ n) = isBuiltin n) (g : GcMode) (f k : Nat) (cur : List Stmt) (s : St) :
+    runLoop (rnL ρ prog) g f k (rnL ρ cur) (rnSt ρ s) = (runLoop prog g f k cur s).rn (rnSt ρ) :=
+  runLoop_rename ρ prog hinj hbi hnb g f k cur s
+
+example : qual ['A'] ['x'] = ['A', '/', 'x'] ∧ qual ['A'] W.fnListPush = W.fnListPush := by decide
 
 end C14
 end Pakhi
